@@ -200,12 +200,12 @@ def run(tier):
                        'vertices per connector) compared after every call.  The other libraries (libvpsc, libcola, libtopology, libdialect, '
                        'libavoid\'s solver copy) are sampled only: %d inputs of the other properties\' generators run through their harnesses '
                        'under ASan+UBSan+LSan, one process per input (coverage.library_sweep).' % (len(hs), calls, n_sw),
-        'evaluations': len(hs) + n_sw, 'distinct_nontrivial': len(distinct) + n_sw,
+        'evaluations': len(hs) + n_sw, 'distinct_nontrivial': len(distinct) + sweep_cov.get('distinct_inputs', 0),
         'rule': 'histories = corpus of minimised past failures + directed histories (delete with queued endpoint change, destroy with pending queue, '
                 'moves with followers, setRoutingCheckpoints set / replace with fewer, more, none / delete; transactions on and off, both routing modes) '
                 '+ checkpoint-directed random histories + random legal histories from VERIF_SEED; distinct = distinct op-kind sequences of the lifecycle '
-                'histories + number of sweep inputs (each generated independently)',
-        'samples': [hs[0], hs[len(hs) // 2], hs[-1]],
+                'histories + number of distinct (unit, argv, input text) sweep inputs',
+        'samples': [hs[0], hs[len(hs) // 2], hs[-1]] + [{k: x[k] for k in ('unit', 'label', 'argv', 'stdin', 'options')} for x in sweep_cov.get('samples', [])],
         'traces_validated_against_impl': len(hs) - len(disagreements) - san_fail,
         'op_histogram': dict(opkinds), 'sanitizer_failures': san_fail, 'failure_fingerprints': seen_fp, 'model_disagreements': len(disagreements)})
     res.assumptions = ['ASan/UBSan/LSan observe the run-time part (they are the implementation-side observation for freed/dangling/leaked)',
